@@ -316,3 +316,49 @@ def conditional_rules(chk, repo):
         else:
             chk.violation("C15.ifrange", c, norm.raw(c), "file_mtime == ifrange.timestamp() (exact match)",
                           "an If-Range date is accepted when it is merely not older than the file: after a file is replaced by a version with an older mtime (rollback, cp -p, rsync -t) a client resuming with the old Last-Modified gets 206 and splices the tail of another file; any future date also yields 206")
+    # ---- C15.cond: a conditional header that is present but holds no valid entity-tag is not an absent header ---------------------------------
+    # request.if_match / if_none_match return None for `absent` and a (possibly empty) tuple for `present`; RFC 9110 13.1.1/13.1.2: a present
+    # If-Match with no matching tag fails the precondition, a present If-None-Match switches If-Modified-Since off
+    frc = repo.cls(FR, "FileResponse")
+    tagged: dict[str, set[str]] = {}   # method name -> names carrying the tag tuple
+    SRC = ("request.if_match", "request.if_none_match")
+    for m in frc.methods.values():
+        names = set()
+        for x in ast.walk(m.node):
+            if isinstance(x, ast.NamedExpr) and norm.raw(x.value) in SRC:
+                names.add(x.target.id)
+            elif isinstance(x, ast.Assign) and norm.raw(x.value) in SRC and isinstance(x.targets[0], ast.Name):
+                names.add(x.targets[0].id)
+        tagged[m.name] = names
+    for m in frc.methods.values():
+        for c in prog.calls_in(m.node):
+            if isinstance(c.func, ast.Attribute) and norm.raw(c.func.value) in ("self", "cls") and c.func.attr in frc.methods:
+                callee = frc.methods[c.func.attr]
+                params = [a.arg for a in callee.node.args.args if a.arg not in ("self", "cls")]
+                for p_, a in zip(params, c.args):
+                    if norm.raw(a) in SRC or (isinstance(a, ast.Name) and a.id in tagged.get(m.name, ())):
+                        tagged.setdefault(callee.name, set()).add(p_)
+    ntag = 0
+    for m in frc.methods.values():
+        names = tagged.get(m.name, set())
+        if not names:
+            continue
+        for t in ast.walk(m.node):
+            tests = []
+            if isinstance(t, (ast.If, ast.While, ast.IfExp)):
+                tests = [t.test]
+            for te in tests:
+                for x in ast.walk(te):
+                    bare = None
+                    if x is te and isinstance(x, ast.Name):
+                        bare = x
+                    elif isinstance(x, ast.BoolOp):
+                        bare = next((v for v in x.values if isinstance(v, ast.Name) and v.id in names), None)
+                    elif isinstance(x, ast.UnaryOp) and isinstance(x.op, ast.Not) and isinstance(x.operand, ast.Name):
+                        bare = x.operand
+                    if bare is not None and bare.id in names:
+                        ntag += 1
+                        chk.violation("C15.cond", te, norm.raw(te), f"{bare.id} is not None",
+                                      f"{m.name}() tests the entity-tag tuple `{bare.id}` for truthiness: a header that is present but holds no well-formed tag (`If-Match: abc`, `If-None-Match: abc`) is an empty tuple and is treated like an absent header - If-Match no longer fails with 412, and If-Modified-Since is consulted although If-None-Match is present (a 304 with an empty body where the slice was due)")
+    if not ntag:
+        chk.ok("C15.cond", frc.node, "presence of If-Match / If-None-Match is tested with `is (not) None`, never by the truthiness of the parsed tag tuple")
